@@ -200,6 +200,10 @@ class Dut:
         # port name <-> wire
         self.in_ports = {p.name: p.wire for p in self.obj.inPorts}
         self.out_ports = {p.name: p.wire for p in self.obj.outPorts}
+        # which outputs has the Python method written so far (put/prepare wrapped on the wire INSTANCES of this test bench)
+        self.written = set()
+        for pn, w in self.out_ports.items():
+            self._wrap(pn, w)
         self.syntax, self.syntax_err = None, None
         try:
             self.syntax = py2syntax.class_to_syntax(self.obj, modname=None)
@@ -232,6 +236,18 @@ class Dut:
             if any(f'(get {a})' in self.syntax['sexp'] for a in outattrs):
                 self.features.add('reads-own-output')
 
+    def _wrap(self, pn, w):
+        put0, prep0 = w.put, w.prepare
+
+        def put(v, _pn=pn):
+            self.written.add(_pn)
+            return put0(v)
+
+        def prepare(v, _pn=pn):
+            self.written.add(_pn)
+            return prep0(v)
+        w.put, w.prepare = put, prepare
+
     def _state_names_fallback(self):
         return [k for k, v in vars(self.obj).items() if isinstance(v, int) and not isinstance(v, bool)
                 and k not in ('x', 'y') and not k.startswith('_')]
@@ -257,7 +273,7 @@ class Dut:
                 break
             ports = {n: w.get() for n, w in list(self.in_ports.items()) + list(self.out_ports.items())}
             state = {k: getattr(self.obj, k) for k in self.state_names if hasattr(self.obj, k)}
-            out.append(dict(ports=ports, state=state))
+            out.append(dict(ports=ports, state=state, written=set(self.written)))
         return out, err
 
 
@@ -494,7 +510,7 @@ class Batch:
             for name in jb['vobs']:
                 if name in d.out_ports:
                     want = real[k]['ports'][name]
-                    seen_change = any(real[j]['ports'][name] != 0 for j in range(k + 1))
+                    seen_change = name in real[k]['written']      # has the Python method assigned this output yet
                 elif name in real[k]['state']:
                     want = real[k]['state'][name]
                     seen_change = True
@@ -503,8 +519,12 @@ class Batch:
                 got = tr[k + 1][name]
                 if got == want:
                     continue
-                if got == 'x':
-                    kind = 'x-state' if name not in d.out_ports else ('x-after-write' if seen_change else 'x-at-powerup')
+                if name in d.out_ports and not seen_change:
+                    # never assigned so far: the simulator shows the wire's power-up 0, the `output reg` holds x (or, for an
+                    # incompletely assigned always @(*) = latch, whatever the time-0 evaluation on unknown inputs left there)
+                    kind = 'x-at-powerup'
+                elif got == 'x':
+                    kind = 'x-state' if name not in d.out_ports else 'x-after-write'
                 else:
                     kind = 'x-consequence' if tainted else 'mismatch'
                 if kind != 'x-at-powerup' and tainted:
